@@ -280,6 +280,7 @@ def run_real(ops, backing=False, held=None):
         m = s.H.x86_machine()
     trace = []
     reuse_cache = {}
+    saved = None
     if held is not None:
         first = next((o for o in ops if 'base' in o or 'line' in o), {})
         kind = 'const' if (first.get('base') == 'const' or str(first.get('line', '')).startswith('mov ebx, %d' % CONST_BASE)) else 'sym'
@@ -371,6 +372,17 @@ def run_real(ops, backing=False, held=None):
             trace.append(t)
         elif op['op'] == 'probe':
             trace.append({'probe': True})
+        elif op['op'] == 'save':
+            saved = m.pool.copy()
+            trace.append({'save': True})
+        elif op['op'] == 'restore':
+            if saved is not None:
+                m.pool = saved.copy() if op.get('copy') else saved
+                if not op.get('copy'):
+                    saved = None
+                trace.append({'restore': True})
+            else:
+                trace.append({'probe': True})
         elif op['op'] == 'snapshot':
             # the client saves and restores the state (a copy of the pool replaces the pool): semantically nothing
             m.pool = m.pool.copy()
@@ -388,8 +400,15 @@ def run_ref(trace, val):
     image = refmodel.InitialImage(val['_image'])
     syms = dict((k, v) for k, v in val.items() if not k.startswith('_'))
     ref = refmodel.RefMachine(ref_initial(val), image, syms)
+    kept = None
     for t in trace:
         if t.get('probe'):
+            continue
+        if t.get('save'):
+            kept = (dict(ref.regs), dict(ref.mem))
+            continue
+        if t.get('restore'):
+            ref.regs, ref.mem = dict(kept[0]), dict(kept[1])      # (the set of touched addresses keeps the abandoned branch's)
             continue
         affs = t['affs']
         if t.get('rep'):
@@ -868,6 +887,30 @@ def gen_flags_program(rng):
     return ops
 
 def gen_history(rng):
+    cfg, ops = gen_history0(rng)
+    save_restore(cfg, ops)
+    return cfg, ops
+
+def save_restore(cfg, ops):
+    """Second pass (keyed by the history itself, the main stream of choices is untouched): the client saves the state
+    (a copy of the pool), lets the machine run on, and later puts the saved pool back - the branch in between is
+    abandoned.  Not with a write-through backing store (a restore of the pool does not undo the callbacks' writes)."""
+    if cfg.get('backing') is True or len(ops) < 2 or cfg.get('mode') in ('string',):
+        return
+    r2 = random.Random('save/' + hashlib.sha256(json.dumps(ops, sort_keys=True).encode()).hexdigest())
+    if r2.random() >= 0.12:
+        return
+    i = r2.randrange(0, len(ops))
+    j = r2.randrange(i + 1, len(ops) + 1)
+    ops.insert(j, {'op': 'restore', 'copy': r2.random() < 0.4})
+    ops.insert(i, {'op': 'save'})
+    if r2.random() < 0.5:
+        # the abandoned branch rewrites a cell the saved state already holds, at the same address and width
+        prior = [o for o in ops[:i] if o.get('op') == 'store']
+        if prior:
+            ops.insert(i + 1 + r2.randrange(0, j - i), dict(r2.choice(prior), src=['reg', r2.choice(['esi', 'edi', 'eax', 'edx']), 0]))
+
+def gen_history0(rng):
     mode = rng.choice(['mem'] * 11 + ['insn'] * 5 + ['string'] * 3 + ['flags'] * 2 + ['arith'] + ['sumbase'])
     base = rng.choice(['sym', 'const'])
     n = min(12, 1 + int(rng.expovariate(1 / 4.0)))
